@@ -209,6 +209,25 @@ def strip_comments(src: str) -> str:
     return re.sub(r"--.*", "", src)
 
 
+def import_closure(modules: list[str]) -> list[Path]:
+    """the project's own source files the given modules import, transitively"""
+    seen: dict[str, Path] = {}
+    todo = list(modules)
+    while todo:
+        m = todo.pop()
+        if m in seen:
+            continue
+        f = LEAN / (m.replace(".", "/") + ".lean")
+        if not f.exists():
+            continue
+        seen[m] = f
+        for line in f.read_text().split("\n"):
+            mm = re.match(r"\s*import\s+([\w.]+)", line)
+            if mm:
+                todo.append(mm.group(1))
+    return list(seen.values())
+
+
 def lean_step(prop: str, tier: str) -> LeanStatus:
     """Regenerate Gen/*.lean from /repo, build the property's proofs and the driver, audit axioms."""
     from . import translate
@@ -238,7 +257,7 @@ def lean_step(prop: str, tier: str) -> LeanStatus:
             st.errors.append("proof obligations do not build:\n" + _tail(p.stdout + p.stderr))
             return st
         # forbidden constructs in the sources of the property's modules and everything of ours they import
-        for f in list((LEAN / "Proofs").rglob("*.lean")) + list((LEAN / "CstructModel").rglob("*.lean")):
+        for f in import_closure(modules):
             txt = strip_comments(f.read_text())
             for i, line in enumerate(txt.split("\n")):
                 if FORBIDDEN.search(line):
